@@ -4,8 +4,6 @@ import (
 	"fmt"
 	"net"
 	"os"
-	"strconv"
-	"strings"
 	"sync"
 	"syscall"
 	"time"
@@ -95,15 +93,54 @@ func (s *Sim) ListenerAlive(gen int) bool {
 	}
 }
 
-// MarkerGen returns the generation stored in the marker file at path (0 if
-// there is none). MakeStaleSocket creates a marker of a dead generation.
-func MarkerGen(path string) int {
-	b, err := os.ReadFile(path)
+// The socket file at a path is a REAL unix socket file (created by binding a
+// real socket and closing it at once with unlink-on-close disabled), so that
+// Lstat reports a socket and bind fails with EADDRINUSE exactly as with a live
+// or stale socket. Which simulated listener it belongs to is recorded by
+// inode.
+var (
+	markerMu  sync.Mutex
+	markerGen = map[uint64]int{}
+)
+
+func inodeOf(path string) (uint64, bool) {
+	fi, err := os.Lstat(path)
 	if err != nil {
+		return 0, false
+	}
+	st, ok := fi.Sys().(*syscall.Stat_t)
+	if !ok {
+		return 0, false
+	}
+	return st.Ino, true
+}
+
+// MarkerGen returns the generation of the listener that created the socket
+// file at path (0 if there is none).
+func MarkerGen(path string) int {
+	ino, ok := inodeOf(path)
+	if !ok {
 		return 0
 	}
-	g, _ := strconv.Atoi(strings.TrimSpace(strings.TrimPrefix(string(b), "simnet-socket ")))
-	return g
+	markerMu.Lock()
+	defer markerMu.Unlock()
+	return markerGen[ino]
+}
+
+// makeSocketFile binds a real socket at path and closes it, leaving the file.
+func makeSocketFile(path string, gen int) error {
+	l, err := net.ListenUnix("unix", &net.UnixAddr{Name: path, Net: "unix"})
+	if err != nil {
+		return err
+	}
+	l.SetUnlinkOnClose(false)
+	l.Close()
+	if ino, ok := inodeOf(path); ok {
+		markerMu.Lock()
+		markerGen[ino] = gen
+		markerMu.Unlock()
+	}
+	return nil
 }
 
 // MakeStaleSocket leaves a socket file of a dead listener at path, as a
@@ -114,7 +151,7 @@ func (s *Sim) MakeStaleSocket(path string) int {
 	gen := n.nextGen
 	n.nextGen++
 	n.mu.Unlock()
-	os.WriteFile(path, []byte("simnet-socket "+strconv.Itoa(gen)), 0o600)
+	makeSocketFile(path, gen)
 	return gen
 }
 
@@ -170,20 +207,19 @@ func NetListen(network, path string) (net.Listener, error) {
 	g, proc := selfProc(s)
 	s.yield(g, "net.Listen")
 	n := s.net()
-	if _, err := os.Lstat(path); err == nil {
-		n.add(s, NetEvent{Kind: "listen-fail", Proc: proc, Path: path, Gen: MarkerGen(path)})
-		return nil, &net.OpError{Op: "listen", Net: "unix", Addr: &net.UnixAddr{Name: path, Net: "unix"},
-			Err: os.NewSyscallError("bind", syscall.EADDRINUSE)}
-	}
 	n.mu.Lock()
 	gen := n.nextGen
 	n.nextGen++
+	n.mu.Unlock()
+	// the real bind decides, as the kernel would (EADDRINUSE if anything is at the path)
+	if err := makeSocketFile(path, gen); err != nil {
+		n.add(s, NetEvent{Kind: "listen-fail", Proc: proc, Path: path, Gen: MarkerGen(path), Err: err.Error()})
+		return nil, err
+	}
 	l := &simListener{s: s, path: path, gen: gen, proc: proc, backlog: make(chan net.Conn, 128), closed: make(chan struct{})}
+	n.mu.Lock()
 	n.listeners[gen] = l
 	n.mu.Unlock()
-	if err := os.WriteFile(path, []byte("simnet-socket "+strconv.Itoa(gen)), 0o600); err != nil {
-		return nil, &net.OpError{Op: "listen", Net: "unix", Addr: &net.UnixAddr{Name: path, Net: "unix"}, Err: err}
-	}
 	n.add(s, NetEvent{Kind: "listen", Proc: proc, Path: path, Gen: gen})
 	return l, nil
 }
